@@ -108,8 +108,13 @@ def generate(prop, rng, index, tier):
         keep = [i for i in listed if rng.random() < 0.7] or listed[:1]
         rng.shuffle(keep)
         rewrite = {"listed": keep, "spelling": rng.choice(["abs", "rel", "dot", "dotdot"])}
+    inplace = None
+    if rng.random() < 0.3:
+        inplace = {"cols": [rng.randrange(8) for _ in range(rng.randint(1, 3))], "write_first": rng.random() < 0.6,
+                   "how": rng.choice(["command", "program"]), "spelling": rng.choice(["abs", "rel", "dot"]),
+                   "read_spelling": rng.choice(["abs", "rel", "dotdot"])}
     return {"engine": ENGINE, "prop": "C17", "columns": cols, "listed": listed, "actor": actor, "reads": reads,
-            "rewrite": rewrite, "write_spelling": rng.choice(["abs", "rel", "dot"])}
+            "rewrite": rewrite, "write_spelling": rng.choice(["abs", "rel", "dot"]), "inplace": inplace}
 
 
 # ------------------------------------------------------------------------------------------------
@@ -300,6 +305,51 @@ def execute(sc):
                 res.probe("file rewritten through another spelling of its path")
             # ---- READ -----------------------------------------------------------------------------------------
             do_reads("post")
+            # ---- UPDATE IN PLACE: a second program reads columns of the file and writes them back to the same file; the
+            # write command is the one the client runs (or lists first), its inputs have not been evaluated yet ------------
+            ip = sc.get("inplace")
+            if ip and nrows and state["head_names"]:
+                now = state["head_names"]
+                sel = list(dict.fromkeys(now[i % len(now)] for i in ip["cols"]))
+                byname = {c["name"]: c for c in cols}
+                if all(nm in byname for nm in sel) and not any(state["bad_cells"].get(nm) for nm in now):
+                    prog2 = Program(working_dir=WORK)
+                    wargs = {"OutFileName": _spell(ip.get("spelling", "abs")), "OutFieldNames": ["u%d" % i for i in range(len(sel))]}
+                    if ip.get("write_first"):
+                        prog2.add_command(prog2.find_command_class("EEMSWrite"), "W", wargs)
+                    for i, nm in enumerate(sel):
+                        prog2.add_command(prog2.find_command_class("EEMSRead"), "u%d" % i,
+                                          {"InFileName": _spell(ip.get("read_spelling", "abs")), "InFieldName": nm})
+                    if not ip.get("write_first"):
+                        prog2.add_command(prog2.find_command_class("EEMSWrite"), "W", wargs)
+                    log.emit("op-begin", op="UPDATE-IN-PLACE", cols=sel, how=ip.get("how"))
+                    try:
+                        if ip.get("how") == "command":
+                            prog2.commands["W"].run()
+                        else:
+                            prog2.run()
+                        err = None
+                    except SimAbort:
+                        raise
+                    except Exception as exc:  # noqa
+                        err = exc
+                    res.probe("file updated in place (read and written by one program)")
+                    if err is not None:
+                        res.violate("C17.write", "C17.write in-place-raised %s" % type(err).__name__,
+                                    "reading %r from the file and writing them back to it raised %r" % (sel, err))
+                    else:
+                        recs = [r for r in csvmod.reader(io.StringIO(fs.text(PATH) or "")) if r]
+                        want = [[float(_val(byname[nm]["values"][r])) for nm in sel] for r in range(nrows)]
+                        try:
+                            got = [[float(x) for x in r] for r in recs[1:]]
+                        except ValueError:
+                            got = None
+                        if not recs or recs[0] != wargs["OutFieldNames"] or got is None or len(got) != nrows or any(
+                                _bits(a) != _bits(b) for gr, wr in zip(got, want) for a, b in zip(gr, wr)) or any(
+                                len(gr) != len(sel) for gr in got):
+                            res.violate("C17.value", "C17.value in-place-update-lost-data",
+                                        "after reading %r and writing them back to the same file it holds %r"
+                                        % (sel, (fs.text(PATH) or "")[:120]))
         finally:
             mon.uninstall()
     return _finish(sc, res)
